@@ -63,6 +63,22 @@ def brightness_case(draw):
 
 
 @st.composite
+def many_photon_case(draw):
+    """5-6 photons spread over three (or more) occupied modes with all three imperfections present: the emitted-input
+    statistics run to thousands of intermediate entries (6 outcomes per photon) before equivalent ones are merged."""
+    n = draw(st.integers(3, 4))
+    prog = draw(gen.flat_program(min_n=n, max_n=n, max_ops=5, lossy=False))
+    nph = draw(st.integers(5, 6 if n == 3 else 5))
+    occ = [1] * min(n, 3) + [0] * (n - min(n, 3))
+    for _ in range(nph - sum(occ)):
+        occ[draw(st.integers(0, n - 1))] += 1
+    occ = draw(st.permutations(occ))
+    return {"prog": prog, "input": list(occ), "brightness": draw(st.sampled_from([0.5, 0.8, 0.95, 1.0])),
+            "purity": draw(st.sampled_from([0.6, 0.9, 0.99])), "indist": draw(st.sampled_from([0.3, 0.7, 0.95])),
+            "threshold": 0, "backend": draw(st.sampled_from(["permanent", "slos"]))}
+
+
+@st.composite
 def tie_case(draw):
     """probability_threshold exactly equal to the probability of one of the possible inputs. With brightness a
     binary fraction and purity = indistinguishability = 1 every input probability is a dyadic rational, computed
@@ -245,5 +261,6 @@ def subs(tier):
         Sub("mixture", run_source, strategy=source_case(big=not q), examples=60 if q else 800),
         Sub("brightness-only-lossy", run_source, strategy=brightness_case(), examples=30 if q else 400),
         Sub("threshold-ties", run_source, strategy=tie_case(), examples=30 if q else 600),
+        Sub("many-photons", run_source, strategy=many_photon_case(), examples=1 if q else 40),
         Sub("closed-forms", run_closed, strategy=closed_case(), examples=40 if q else 500),
     ]
